@@ -110,6 +110,7 @@ def build_tool(name, tags="verif", race=False, out=None):
         if data != old:
             with open(dst, "wb") as b:
                 b.write(data)
+    sync_gomod()
     out = out or os.path.join(BUILD, name + ("-race" if race else ""))
     cmd = ["go", "build", "-tags", tags]
     env = dict(GOENV)
@@ -119,6 +120,28 @@ def build_tool(name, tags="verif", race=False, out=None):
     cmd += ["-o", out, "./cmd/" + name]
     rc, o, e = sh(cmd, cwd=HARNESS, timeout=900, env=env)
     return rc == 0, out, (o + e)
+
+
+def sync_gomod():
+    """harness/go.mod pins exactly the versions of /repo/src/go.mod (offline: nothing may be looked up)."""
+    src = open(os.path.join(SRC, "go.mod")).read()
+    m = re.search(r"^go\s+(\S+)", src, re.M)
+    gover = m.group(1) if m else "1.21"
+    reqs = []
+    for blk in re.findall(r"require\s*\((.*?)\)", src, re.S):
+        for l in blk.strip().splitlines():
+            l = l.strip()
+            if l and not l.startswith("//"):
+                reqs.append(l)
+    for l in re.findall(r"^require\s+([^(\s]\S*\s+\S+.*)$", src, re.M):
+        reqs.append(l.strip())
+    txt = "module verifharness\n\ngo %s\n\nrequire github.com/bartossh/Computantis/src v0.0.0\n\nrequire (\n%s\n)\n\nreplace github.com/bartossh/Computantis/src => %s\n" % (
+        gover, "\n".join("\t" + r for r in reqs), SRC)
+    dst = os.path.join(HARNESS, "go.mod")
+    old = open(dst).read() if os.path.exists(dst) else ""
+    if old != txt:
+        with open(dst, "w") as f:
+            f.write(txt)
 
 
 def regen():
